@@ -286,7 +286,7 @@ V('verb-state-change-in-region', ['C20'], 'R-VERB', SW, ("            if verbose
 V('verb-monitor-outside', ['C20'], 'R-VERB', SW, ("        if verbose:\n            monitor(vertex_index + 1, len(vertices), extra={\"valid\": sum(vertices[: vertex_index + 1])})", "        monitor(vertex_index + 1, len(vertices), extra={\"valid\": sum(vertices[: vertex_index + 1])})"))
 V('verb-numpy-int-to-dna', ['C20'], 'R-TYPED', SW, ("        print(\"Remove arc \" + number_to_dna(int(former), dna_length=observed_length)", "        print(\"Remove arc \" + number_to_dna(former, dna_length=observed_length)"))
 V('verb-result-depends', ['C20'], 'R-VERB', GR, ("    if verbose:\n        print(\"Remove useless vertex, the out-degree of witch less than \" + str(threshold) + \".\")", "    if verbose:\n        print(\"Remove useless vertex, the out-degree of witch less than \" + str(threshold) + \".\")\n        threshold = int(threshold)"))
-V('verb-passed-as-other-flag', ['C20'], 'R-VERB', SW, ("        quotient = bit_to_number(binary_message, verbose=verbose)", "        quotient = bit_to_number(binary_message, is_string=not verbose or True, verbose=verbose)"))
+V('verb-passed-as-other-flag', ['C20'], 'R-VERB', SW, ("        quotient = bit_to_number(binary_message, verbose=verbose)", "        quotient = bit_to_number(binary_message, is_string=not verbose, verbose=verbose)"))
 
 # ---------------------------------------------------------------- R-VTFORM
 VT_VAL = "vt_value = int(sum(where((values[1:] - values[:-1]) > 0)[0])) % (len(nucleotides) ** (vt_length - 1))"
